@@ -2,6 +2,8 @@ import TxdbusModel.Proto.Fds
 import TxdbusModel.Msg.WireCodec
 import TxdbusModel.Wire.SigParse
 import TxdbusModel.Wire.Spec
+import TxdbusModel.Msg.Bridge
+import TxdbusModel.Proto.Receive
 /-
 CODE MODEL for C20 composed with C03 (and, through it, C01): the abstract parser `info` of Proto/Fds.lean
 instantiated with the message model of C03 (Msg/Message.lean - imported read-only), and the sender of
@@ -178,5 +180,53 @@ def sendConstructed (oob : Option (List PyVal)) : Option (List SendEv) :=
   match (oob.getD []).mapM fdNat? with
   | some ds => some (ds.map SendEv.sendFd ++ [SendEv.write])
   | none => none
+
+/-- `sendMessage(msg)` for the message object a constructor call made: only `MethodCallMessage` has the attribute
+`oobFDs` (`hasattr(msg, 'oobFDs')` is False for the other three classes: nothing but the `write`). -/
+def sendOfCall (fuel : Nat) : Msg.Call PyVal → Option (List SendEv)
+  | .methodCall a => sendConstructed (oobAfter fuel a)
+  | _ => sendConstructed none
+
+/-! ## The literal receiver with descriptor events
+
+`fileDescriptorReceived(fd)`: `self._receivedFDs.append(fd)`; `dataReceived(d)`: C04's framing step, then for every
+framed message C04's model of the whole of `rawDBusMessageReceived` (`Receive.handleFrame`, Proto/Receive.lean -
+imported read-only: `parseMessage(raw, self._receivedFDs)`, `self._receivedFDs[m.unix_fds:]`, the hook of the message
+type).  An exception of `handleFrame` escapes `dataReceived`: the loop stops there and the connection is dropped (no
+further event is processed; what `Receive.recvRun` does for a connection without descriptor events). -/
+
+/-- What one hook call was handed, or the exception that escaped. -/
+abbrev LitCall := Except PyErr (Option Receive.Hook × Msg.Msg PyVal)
+
+/-- The frames of one read, in order, until an exception escapes.  -> queue afterwards, the calls, crashed? -/
+def litDeliverAll (T : Msg.Tables) (fuel : Nat) : List PyVal → List Bytes → List PyVal × List LitCall × Bool
+  | q, [] => (q, [], false)
+  | q, raw :: t =>
+    match Receive.handleFrame T (Msg.wireCodec fuel) q raw with
+    | .error e => (q, [.error e], true)
+    | .ok (h, m, q') =>
+      let r := litDeliverAll T fuel q' t
+      (r.1, .ok (h, m) :: r.2.1, r.2.2)
+
+structure LitRecv (α : Type) where
+  st : St α
+  queue : List PyVal
+  crashed : Bool
+
+def litRecvEv {α : Type} (T : Msg.Tables) (fuel : Nat) (A : Auth α) (r : LitRecv α) : Ev → LitRecv α × List LitCall
+  | .fd n => ({ r with queue := r.queue ++ [fdVal n] }, [])
+  | .read d =>
+    let x := step A r.st d
+    let y := litDeliverAll T fuel r.queue (msgsOf x.2)
+    (⟨x.1, y.1, y.2.2⟩, y.2.1)
+
+def litRecvRun {α : Type} (T : Msg.Tables) (fuel : Nat) (A : Auth α) (r : LitRecv α) : List Ev → LitRecv α × List LitCall
+  | [] => (r, [])
+  | e :: es =>
+    if r.crashed then (r, [])
+    else
+      let x := litRecvEv T fuel A r e
+      let y := litRecvRun T fuel A x.1 es
+      (y.1, x.2 ++ y.2)
 
 end Txdbus.Proto.FdsE2E
